@@ -35,7 +35,7 @@ TIERS = {
     "quick": {"worlds": 500, "wall": 500, "shrink_budget": 60,
               "required_probes": ["c15.path_checked", "c15.zero_jump_path", "c15.multi_date", "c15.maxstep_mode",
                                   "c15.coupled_path", "c15.gap_gt_eps", "c15.nd_path_checked"]},
-    "thorough": {"worlds": 20000, "wall": 3300, "shrink_budget": 150,
+    "thorough": {"worlds": 200000, "wall": 3300, "shrink_budget": 150,
                  "required_probes": ["c15.path_checked", "c15.zero_jump_path", "c15.multi_date", "c15.maxstep_mode",
                                      "c15.coupled_path", "c15.gap_gt_eps", "c15.tail_gap_gt_eps", "c15.burst"]},
 }
